@@ -41,6 +41,7 @@ type srvSpec struct {
 	rdvOut    bool // server->client pipe is a rendezvous pipe
 	failAt    map[string]int64
 	failOpn   []string
+	readOnly  bool   // os server: ReadOnly()
 	fixedRoot string // os server: serve this directory (wiped first) instead of a fresh scratch directory
 	dirs      []string
 }
@@ -136,6 +137,9 @@ func (s *srvSpec) start() *srvRun {
 		opts := []ServerOption{WithServerWorkingDirectory(r.root)}
 		if s.alloc {
 			opts = append(opts, WithAllocator())
+		}
+		if s.readOnly {
+			opts = append(opts, ReadOnly())
 		}
 		sv, err := NewServer(r.conn, opts...)
 		if err != nil {
@@ -263,7 +267,87 @@ func (r *srvRun) fileContent(name string) string {
 // ---------------------------------------------------------------------------------------------
 // C14: Close waits for the reads and writes sent before it.
 
-func c14Scenario(server string, nw, nr int, twoHandles bool, alloc bool) explore.Scenario {
+// c14Split: two handles on two files, one opened write-only (gets the writes) and one read-only (gets
+// the reads): the request server serves these through fileput / fileget instead of fileputget.
+func c14SplitScenario(server string, nw, nr int) explore.Scenario {
+	return func() (func(), func(*vsched.Exec) explore.Verdict) {
+		const init = "ABCDEFGHIJKLMNOP"
+		nm := func(n string) string {
+			if server == "os" {
+				return n
+			}
+			return "/" + n
+		}
+		spec := &srvSpec{server: server, split: true, hangup: -1, files: map[string]string{nm("f"): init, nm("g"): init}}
+		spec.setup = [][]byte{
+			mustPkt(&sshFxpOpenPacket{ID: 1, Path: nm("f"), Pflags: sshFxfWrite}),
+			mustPkt(&sshFxpOpenPacket{ID: 2, Path: nm("g"), Pflags: sshFxfRead}),
+		}
+		want := []byte(init)
+		id := uint32(10)
+		for i := 0; i < nw || i < nr; i++ {
+			if i < nw {
+				d := []byte{byte('a' + 2*i), byte('b' + 2*i)}
+				spec.burst = append(spec.burst, mustPkt(&sshFxpWritePacket{ID: id, Handle: "1", Offset: uint64(2 * i), Length: 2, Data: d}))
+				copy(want[2*i:], d)
+				id++
+			}
+			if i < nr {
+				spec.burst = append(spec.burst, mustPkt(&sshFxpReadPacket{ID: id, Handle: "2", Offset: uint64(2 * i), Len: 2}))
+				id++
+			}
+		}
+		spec.burst = append(spec.burst, mustPkt(&sshFxpClosePacket{ID: id, Handle: "1"}), mustPkt(&sshFxpClosePacket{ID: id + 1, Handle: "2"}))
+		var r *srvRun
+		body := func() { r = spec.start(); r.drive() }
+		judge := func(e *vsched.Exec) explore.Verdict {
+			defer r.cleanup()
+			v := explore.Verdict{}
+			var st []string
+			for _, f := range r.frames {
+				st = append(st, f.String())
+			}
+			v.Outcome = strings.Join(st, " ") + " | " + r.fileContent("f")
+			v.Sample = map[string]any{"responses": st}
+			if e.Deadlock {
+				return v
+			}
+			if msg := r.orderOracle(true); msg != "" {
+				v.Bad, v.Key = msg, "c14-order"
+				return v
+			}
+			for i, f := range r.frames {
+				if c, ok := f.statusCode(); ok && c != sshFxOk {
+					v.Bad = fmt.Sprintf("pipelined %s#%d before close was answered %s: %v", fxp(r.reqTypes[i]), f.id, fx(c), st)
+					v.Key = fmt.Sprintf("c14-status-%s", fxp(r.reqTypes[i]))
+					return v
+				}
+				if f.typ == sshFxpData && string(f.body[8:]) != init[2*((int(f.id)-10)/2):2*((int(f.id)-10)/2)+2] && nw == nr {
+					v.Bad = fmt.Sprintf("read #%d returned %s", f.id, f)
+					v.Key = "c14-read-data"
+					return v
+				}
+			}
+			if got := r.fileContent("f"); got != string(want) {
+				v.Bad, v.Key = fmt.Sprintf("final content of f is %q, want %q", got, want), "c14-content"
+				return v
+			}
+			if r.h != nil {
+				for _, f := range r.h.Opened {
+					if len(f.Bad) > 0 {
+						v.Bad = fmt.Sprintf("handler object %s: %s", f.name, strings.Join(f.Bad, "; "))
+						v.Key = "c14-overlap:" + f.Bad[0]
+						return v
+					}
+				}
+			}
+			return v
+		}
+		return body, judge
+	}
+}
+
+func c14Scenario(server string, nw, nr int, twoHandles bool, alloc bool, mid bool) explore.Scenario {
 	return func() (func(), func(*vsched.Exec) explore.Verdict) {
 		const init = "ABCDEFGHIJKLMNOP"
 		spec := &srvSpec{server: server, alloc: alloc, split: true, hangup: -1, files: map[string]string{"/f": init, "/g": init}}
@@ -307,6 +391,11 @@ func c14Scenario(server string, nw, nr int, twoHandles bool, alloc bool) explore
 				reads = append(reads, rd{id, init[off : off+2]})
 				id++
 			}
+		}
+		if mid {
+			// a sequential (non read/write) request between the transfers and the close
+			spec.burst = append(spec.burst, mustPkt(&sshFxpFstatPacket{ID: id, Handle: handles[0]}))
+			id++
 		}
 		for _, h := range handles {
 			spec.burst = append(spec.burst, mustPkt(&sshFxpClosePacket{ID: id, Handle: h}))
@@ -391,7 +480,10 @@ func atoiDef(s string, d int) int {
 
 func init() {
 	reg.Part("C14/sched", func(c *reg.Ctx) *reg.Result {
-		sc := c14Scenario(c.Arg("server", "rs"), c.ArgInt("nw", 2), c.ArgInt("nr", 1), c.Arg("two", "0") == "1", c.Arg("alloc", "0") == "1")
+		sc := c14Scenario(c.Arg("server", "rs"), c.ArgInt("nw", 2), c.ArgInt("nr", 1), c.Arg("two", "0") == "1", c.Arg("alloc", "0") == "1", c.Arg("mid", "0") == "1")
+		if c.Arg("splitmode", "0") == "1" {
+			sc = c14SplitScenario(c.Arg("server", "rs"), c.ArgInt("nw", 2), c.ArgInt("nr", 2))
+		}
 		return explore.Run(explore.Config{Prop: "C14", Strategy: c.Arg("strategy", "db"), Bound: c.ArgInt("bound", 2), Ctx: c}, sc)
 	})
 	reg.Prop(&reg.Property{
@@ -415,6 +507,11 @@ func init() {
 					j("rs W=3 two handles db3", "instr-w3", "rs", 1, 1, true, 3, 600),
 					j("os W=8 2w+1r db3", "instr", "os", 2, 1, false, 3, 900),
 					j("os W=2 2w+2r db3", "instr-w2", "os", 2, 2, false, 3, 600),
+					func() reg.Job {
+						x := j("rs W=2 2w+1r, fstat, close db3", "instr-w2", "rs", 2, 1, false, 3, 600)
+						x.Args["mid"] = "1"
+						return x
+					}(),
 				}
 			}
 			return []reg.Job{
@@ -422,6 +519,21 @@ func init() {
 				j("rs W=2 2w+1r db3", "instr-w2", "rs", 2, 1, false, 3, 100),
 				j("os W=2 2w+1r db2", "instr-w2", "os", 2, 1, false, 2, 100),
 				j("rs W=2 two handles interleaved 2w each db2", "instr-w2", "rs", 2, 0, true, 2, 100),
+				func() reg.Job {
+					x := j("rs W=2 write-only + read-only handles 2w/2r db2", "instr-w2", "rs", 2, 2, false, 2, 100)
+					x.Args["splitmode"] = "1"
+					return x
+				}(),
+				func() reg.Job {
+					x := j("rs W=2 2w+1r, fstat, close db3", "instr-w2", "rs", 2, 1, false, 3, 100)
+					x.Args["mid"] = "1"
+					return x
+				}(),
+				func() reg.Job {
+					x := j("os W=2 2w+1r, fstat, close db2", "instr-w2", "os", 2, 1, false, 2, 100)
+					x.Args["mid"] = "1"
+					return x
+				}(),
 				j("os W=2 two handles interleaved 2w+1r each db2", "instr-w2", "os", 2, 1, true, 2, 100),
 			}
 		},
